@@ -66,8 +66,9 @@ def build(tier, seed):
     for n in ((2, 3) if quick else (2, 3, 4)):
         for levels in (1, 2):
             names = ["g", "h"][:levels]
-            # quick tier, n=3 with two levels: no divider values (n=2 and the thorough tier have them on both levels)
-            div_levels = [] if (quick and n == 3 and levels == 2) else list(range(levels))
+            # quick tier, n=3 with two levels: no divider values; thorough n=4 with two levels: dividers on the outer level only
+            # (both levels: ~3000 paths, not decided within the budget); otherwise on every level
+            div_levels = [] if (quick and n == 3 and levels == 2) else ([0] if (n == 4 and levels == 2) else list(range(levels)))
             ksig = ", ".join("k%d_%d: str" % (l, i) + (", d%d_%d: bool" % (l, i) if l in div_levels else "")
                              for l in range(levels) for i in range(n))
             pre = ["len(k%d_%d) == 1" % (l, i) for l in range(levels) for i in range(n)]
@@ -100,8 +101,10 @@ def build(tier, seed):
 ''' % (lk, names, n, n),
                 stubs=["data frame -> FakeFrame dict-of-lists", "get_string_width -> constant 0.5 (every cell/heading is one line "
                        "in a 1-inch column)", "pl.DataFrame(rows) -> recording object"],
-                bounds="n=%d rows, %d grouping level(s), every key a symbolic one-character string or the '-----' divider, page_by or "
-                       "subline_by (symbolic), nrow/reserved unbounded" % (n, levels),
+                bounds="n=%d rows, %d grouping level(s), every key a symbolic one-character string%s, page_by or "
+                       "subline_by (symbolic), nrow/reserved unbounded" % (
+                           n, levels, " or the '-----' divider" if len(div_levels) == levels else (
+                               " (the '-----' divider on level(s) %s)" % div_levels if div_levels else " (no divider values)")),
                 what="is_group_start/is_subline_start(i) <=> some key of row i differs from row i-1 (a divider is a key value); row 0 "
                      "starts; total_rows = data lines + one heading line per rendered non-divider level of the starting group; the rows "
                      "charged for headings repeated at the top of a page count non-divider levels only (dividers never cost a row)"))
